@@ -4,3 +4,4 @@ open Model.Capstone
 #print axioms translated_system_snapshot
 #print axioms treach_can_append
 #print axioms treach_can_join
+#print axioms translated_convergence
